@@ -64,6 +64,14 @@ public:
         , MemoryManager* const manager = XMLPlatformUtils::fgMemoryManager
     );
 
+    /**
+      * Compares two base64Binary literals by value:
+      * white space between the characters is not significant.
+      */
+    virtual int compare(const XMLCh* const, const XMLCh* const
+        ,       MemoryManager*     const manager = XMLPlatformUtils::fgMemoryManager
+        );
+
     /***
      * Support for Serialization/De-serialization
      ***/
